@@ -28,9 +28,8 @@ TRUSTED = [
     "index_lookup, skeletonize_loop, a user-supplied smoothing function); NumPy identities x[m] = gather(where(m,x,0),m), "
     "(x with x[s]:=y)[s] = y, x[~m]=c / x[m]=y[m] as where()",
     "modelled, not verified: arrays as total functions on Z*Z; determinism of NumPy/SciPy (two runs on equal data give "
-    "equal bits); openlines' angle loop written out for three angles; regional_maximum's term is the ties_are_ok=True "
-    "pass with the default 3x3 structure (the default tie-breaking path and custom structures are covered by the "
-    "two-run oracle only)",
+    "equal bits); openlines' angle loop written out for three angles; regional_maximum's term reads neighbours within "
+    "radius 1 (default 3x3 structure; larger structures are covered by the two-run oracle only)",
 ]
 ASSUMPTIONS = ["image and mask have the same 2-d shape; mask is boolean; the smoothing function handed to "
                "smooth_with_function_and_mask is pure"]
@@ -58,38 +57,53 @@ except Exception:      # a missing pin file makes every hand term void (translat
     PINS = {}
 
 
+UNTRANSLATABLE = ("Glob", "UNTRANSLATABLE", (("Img",),))      # a term the checker rejects
+
+
 def build_terms(sources):
-    """sources {module: text} -> (terms {name: lowered term}, rejected {name: lowered term}); raises on anything
-    unrecognised, on a pin mismatch, or when a listed function is missing."""
+    """sources {module: text} -> (terms {name: lowered term}, rejected {...}, extra {...}, errors [text]).  Fail-closed per
+    function: anything unrecognised, a pin mismatch or a missing function yields the REJECTED placeholder term (so the
+    function's `_ok` obligation breaks) and an entry in errors."""
     import gen_maskflow_c12 as G
     import maskflow_hand_c12 as Hd
     M = G.Module(sources)
-    terms, rejected = {}, {}
-    for name in LISTED:
-        if name not in M.funcs:
-            raise G.Unsupported("listed function %s not found in the source" % name)
+    terms, rejected, extra, errors = {}, {}, {}, []
+
+    def attempt(name, thunk, store):
+        try:
+            store[name] = G.lower(thunk())
+        except (G.Unsupported, KeyError, IndexError, TypeError, ValueError, AttributeError) as e:
+            store[name] = UNTRANSLATABLE
+            errors.append("%s: %s: %s" % (name, type(e).__name__, str(e)[:200]))
+
+    def pins_ok(name):
+        for n in [name] + Hd.ALSO_PINNED.get(name, []):
+            if n not in M.funcs:
+                raise G.Unsupported("function %s not found in the source" % n)
+            h = G.ast_hash(M.funcs[n])
+            if PINS.get(n) != h:
+                raise G.Unsupported("hand-written term of %s is void: %s has hash %s, pinned %s" % (name, n, h, PINS.get(n)))
+        if name == "canny":
+            Hd.check_canny_reads(M)
+
     for name in AUTO:
-        t = G.translate(M, name, callables=("function",) if name == "smooth_with_function_and_mask" else ())
-        terms[name] = G.lower(t)
-    pinned = set(Hd.HAND)
-    for deps in Hd.ALSO_PINNED.values():
-        pinned.update(deps)
-    for name in sorted(pinned):
-        h = G.ast_hash(M.funcs[name])
-        if PINS.get(name) != h:
-            raise G.Unsupported("hand-written term of %s is void: function hash %s, pinned %s" % (name, h, PINS.get(name)))
-    Hd.check_canny_reads(M)
+        attempt(name, lambda name=name: G.translate(
+            M, name, callables=("function",) if name == "smooth_with_function_and_mask" else ()), terms)
     for name, builder in Hd.HAND.items():
-        terms[name] = G.lower(builder(M))
-    for name, (_, builder) in Hd.REJECTED.items():
-        rejected[name] = G.lower(builder(M))
-    missing = [n for n in LISTED if n not in terms]
-    if missing:
-        raise G.Unsupported("no term for " + ", ".join(missing))
-    return terms, rejected
+        attempt(name, lambda name=name, builder=builder: (pins_ok(name), builder(M))[1], terms)
+    for name, (fn, builder) in Hd.REJECTED.items():
+        attempt(name, lambda builder=builder: builder(M), rejected)
+    for name, (fn, builder) in Hd.EXTRA.items():
+        attempt(name, lambda fn=fn, builder=builder: (pins_ok(fn), builder(M))[1], extra)
+    for n in LISTED:
+        if n not in terms:
+            terms[n] = UNTRANSLATABLE
+            errors.append("%s: no term" % n)
+    return terms, rejected, extra, errors
 
 
-def emit(terms, rejected):
+def emit(terms, rejected, extra=None):
+    extra = extra or {}
     import gen_maskflow_c12 as G
     em = G.Emitter()
     out = ["(* GENERATED on every run by harness/props/c12.py (tools/gen_maskflow_c12.py) from the STAGED source of",
@@ -99,8 +113,8 @@ def emit(terms, rejected):
            "Import ListNotations.", ""]
     body = []
     order = [n for n in ("median_filter",) if n in terms] + [n for n in LISTED if n != "median_filter"]
-    for name in list(rejected) + order:
-        t = rejected[name] if name in rejected else terms[name]
+    for name in list(rejected) + order + list(extra):
+        t = rejected[name] if name in rejected else (extra[name] if name in extra else terms[name])
         body.append("(* %s:  %s *)" % (name, G.show(t).replace("(*", "( *").replace("*)", "* )")))
         body.append("Definition prog_%s : expr :=\n  %s." % (name, em.coq(t)))
         if name in rejected:
@@ -128,8 +142,17 @@ def emit(terms, rejected):
 
 def gen_files(ctx):
     sources = {m: ctx.staged_source("centrosome/%s.py" % m) for m in ("cpmorphology", "filter", "smooth")}
-    terms, rejected = build_terms(sources)
-    return {"theories/Gen/MaskProgC12.v": emit(terms, rejected)}
+    terms, rejected, extra, errors = build_terms(sources)
+    files = {"theories/Gen/MaskProgC12.v": emit(terms, rejected, extra)}
+    if errors:
+        # write the file anyway (the placeholder terms break exactly the obligations of the functions concerned),
+        # then report the translator failure itself
+        from harness import core
+        with core.CoqLock():
+            for rel, content in files.items():
+                core.write_if_changed(os.path.join(core.COQ, rel), content)
+        raise RuntimeError("untranslatable: " + " | ".join(errors))
+    return files
 
 
 # ------------------------------------------------------------------------------------------------ dynamic side
@@ -314,7 +337,7 @@ def generate(ctx):
     cases = _corpus()
     for c in cases:
         ctx.count("corpus")
-    per = ctx.n(8, 70)
+    per = ctx.n(30, 400)
     for fn in LISTED:
         nv = len(VARIANTS[fn])
         for k in range(per):
